@@ -322,13 +322,15 @@ def one_pack(rep, root, cfg, idx):
         U.synthetic_prior(root, rng, 19)
     elif prior == 'real':
         pdf = U.make_frame(n + 4, 'plain', rng)
-        po = U.run_pack(root, pdf, [0, (n + 4) // 2, n + 4], max(1, (k + 3) % 7), 'inside', comp)
+        po = U.run_pack(root, pdf, [0, (n + 4) // 2, n + 4], max(1, (k + 3) % 7), 'inside', comp, K=2)
         if po.raised is not None:
             rep.violation('raises', f'preparing the prior dataset raised {po.raised!r}', meta)
             return None
     f0 = F.fs_term(root, U.prior_classifier)
     outside_before = {p: t for p, t in F.tree(root).items() if p != U.DS and not p.startswith(U.DS + '/')}
-    o = U.run_pack(root, df, cuts, k, mode, comp, overwrite=ov)
+    # default retry arguments wait up to two minutes between attempts: a broken tree would
+    # make a run last for hours, so every third run keeps the defaults and the others do not wait
+    o = U.run_pack(root, df, cuts, k, mode, comp, overwrite=ov, K=None if idx % 3 == 0 else 2)
     rep.evaluations += 1
     rep.count(f'mode:{mode}')
     rep.count(f'prior:{prior}')
